@@ -1,8 +1,9 @@
 (* Props/C11.v — tmux pass-through wrapping is exactly invertible.
    Only statements; every proof is [exact <lemma from Proofs/>]. *)
 From Coq Require Import NArith List Bool.
-From Tup Require Import Lib.ByteStr Lib.PyFmt Lib.CommandTypes Gen.TmuxGen Model.TmuxTemplate Model.GraphicsCommand Spec.TmuxSpec
-  Proofs.TmuxProofs Proofs.CommandProofs.
+From Coq Require Import ZArith.
+From Tup Require Import Lib.ByteStr Lib.PyFmt Lib.CommandTypes Gen.TmuxGen Model.TmuxTemplate Model.GraphicsCommand Model.SendModel Spec.TmuxSpec
+  Proofs.TmuxProofs Proofs.CommandProofs Proofs.SendProofs Proofs.FaultProofs.
 Import ListNotations.
 Open Scope N_scope.
 
@@ -63,6 +64,39 @@ Theorem C11_unpropagated_setter_refuted :
   cfg_layers s' = 2%nat /\ hl_emit s' [97] = emit 0 [97] /\ hl_emit s' [97] <> emit 2 [97].
 Proof. exact unpropagated_setter_refuted. Qed.
 Print Assumptions C11_unpropagated_setter_refuted.
+
+(* ---- a chunked transmission that stops under way (I/O error on the payload or the stream, an interrupt, a raising
+   callback) after j of its writes: what has reached the command stream with n layers configured is, write for write, the
+   n-fold wrapping of what reaches it with no tmux configured — in particular nothing bare and nothing extra.  The limit is
+   given net of the template's length (send() subtracts it), so both runs cut the payload at the same places; j is
+   arbitrary, so this covers every fault point, and the complete transmission (j >= the number of writes). *)
+Theorem C11_interrupted_transmission : forall (n : nat) tn t0 (c : transmit) (m : Z) wsn ws0,
+  template n = Some tn -> template 0 = Some t0 -> inline c -> bytes_ok (t_data c) ->
+  send (CTransmit c) tn (m + Z.of_nat (length tn)) = SendOk wsn ->
+  send (CTransmit c) t0 (m + Z.of_nat (length t0)) = SendOk ws0 ->
+  length wsn = length ws0 /\
+  forall j, Forall2 (fun w w0 => TmuxSpec.layers_ok n w w0 = true) (firstn j wsn) (firstn j ws0).
+Proof. exact interrupted_transmission. Qed.
+Print Assumptions C11_interrupted_transmission.
+(* ... and a limit is refused with n layers iff it is refused with none *)
+Theorem C11_rejection_independent_of_layers : forall tn t0 (c : transmit) (m : Z),
+  send_cmds (CTransmit c) tn (m + Z.of_nat (length tn)) = None <-> send_cmds (CTransmit c) t0 (m + Z.of_nat (length t0)) = None.
+Proof. exact rejection_independent_of_layers. Qed.
+Print Assumptions C11_rejection_independent_of_layers.
+Definition ex_tr : transmit := {|
+  t_image_id := Some 7%N; t_image_number := None; t_medium := Some MDirect; t_data := [1; 2; 3; 4; 5; 6; 7; 8; 9; 10]%N;
+  t_size := None; t_offset := None; t_quiet := None; t_more := None; t_format := None; t_compression := None;
+  t_pix_width := None; t_pix_height := None; t_query := None; t_placement := None; t_omit_action := false |}.
+Example C11_interrupted_nonvacuous :
+  inline ex_tr /\ bytes_ok (t_data ex_tr) /\
+  (match template 2, template 0 with
+   | Some t2, Some t0 =>
+       match send (CTransmit ex_tr) t2 (30 + Z.of_nat (length t2)), send (CTransmit ex_tr) t0 (30 + Z.of_nat (length t0)) with
+       | SendOk w2, SendOk w0 => Nat.leb 2 (length w2) && Nat.eqb (length w2) (length w0)
+       | _, _ => false
+       end
+   | _, _ => false end) = true.
+Proof. split; [left; reflexivity|split; [repeat constructor|vm_compute; reflexivity]]. Qed.
 
 Example C11_nonvacuous :
   has_byte 27 [97; 61; 84; 44; 105; 61; 49; 59; 81; 81; 61; 61] = false /\
